@@ -220,8 +220,11 @@ static inline int fd_in_range(int fd) {
 static inline int should_block(int fd) {
   // an invalid descriptor is the kernel's business: the real call fails with
   // EBADF and the caller gets that error back
+  // suspend the fiber only for a descriptor that the shims manage (WAITABLE)
+  // and that the application has not put into non-blocking mode (BLOCKING)
   if (!thread_locked && fd_in_range(fd) &&
-      fd_info[fd].flags_ & (IO_FLAG_BLOCKING | IO_FLAG_WAITABLE)) {
+      (fd_info[fd].flags_ & (IO_FLAG_BLOCKING | IO_FLAG_WAITABLE)) ==
+          (IO_FLAG_BLOCKING | IO_FLAG_WAITABLE)) {
     return 1;
   }
   return 0;
@@ -631,6 +634,15 @@ int fcntl(int fd, int cmd, ...) {
     }
     // make sure O_NONBLOCK stays set
     if (cmd == F_SETFL) {
+      if (fd_in_range(fd)) {
+        if (val & (O_NONBLOCK | O_NDELAY)) {
+          // non-blocking requested together with other flags
+          atomic_fetch_and(&fd_info[fd].flags_, ~IO_FLAG_BLOCKING);
+        } else {
+          // back to blocking mode (as seen by the application)
+          atomic_fetch_or(&fd_info[fd].flags_, IO_FLAG_BLOCKING);
+        }
+      }
       val |= O_NONBLOCK;
     }
   }
